@@ -34,6 +34,12 @@ func stagePrefix(stage string) (netsim.Options, []string) {
 		return netsim.Options{TxManager: true}, nil
 	case "handshake":
 		return netsim.Options{TxManager: true}, []string{"version", "verack"}
+	case "connect-nosplits":
+		// a repository of a network without chain split points (any network but mainnet): its
+		// verification request carries an empty locator and no reply can verify the peer
+		return netsim.Options{TxManager: true, NoSplits: true}, nil
+	case "handshake-nosplits":
+		return netsim.Options{TxManager: true, NoSplits: true, HeaderHandler: true}, []string{"version", "verack"}
 	case "ready":
 		return netsim.Options{}, []string{"version", "verack", "headers[bsv-split]"}
 	case "ready-tx":
@@ -127,7 +133,7 @@ func buildCases(thorough bool) []crashCase {
 		cases = append(cases, crashCase{ID: id, Stage: stage, Name: name, Hex: hex.EncodeToString(b), Then: then})
 		id++
 	}
-	stages := []string{"connect", "handshake", "ready", "ready-tx", "ready-block", "ready-block-pieces"}
+	stages := []string{"connect", "handshake", "ready", "ready-tx", "ready-block", "ready-block-pieces", "connect-nosplits", "handshake-nosplits"}
 	base := []string{"version", "verack", "headers[bsv-split]", "headers[block1]", "headers[block1,block2]", "ping", "pong", "protoconf", "reject",
 		"addr[1]", "inv[tx0]", "tx[tx0]", "block[block1]", "block[block1,2tx]", "getaddr", "unknown[1025]", "extmsg/tx[tx0]", "extmsg/block[block1]", "extmsg/unknown[100]"}
 	var special []namedBytes
@@ -234,6 +240,8 @@ func crashWorker() {
 		witness.Deliver(netsim.Letters[l])
 		witness.Barrier(barrierWait)
 	}
+	// the connections of the stages on a network without split points share a second set of repositories
+	witnessNoSplits := netsim.Start(netsim.Options{TxManager: true, NoSplits: true})
 	out := bufio.NewWriter(os.Stdout)
 	sc := bufio.NewScanner(os.Stdin)
 	sc.Buffer(make([]byte, 64<<20), 64<<20)
@@ -245,7 +253,11 @@ func crashWorker() {
 		fmt.Fprintf(out, "START %d\n", c.ID)
 		out.Flush()
 		opt, prefix := stagePrefix(c.Stage)
-		s := netsim.StartShared(opt, witness)
+		wit := witness
+		if opt.NoSplits {
+			wit = witnessNoSplits
+		}
+		s := netsim.StartShared(opt, wit)
 		for _, l := range prefix {
 			if isAction(l) {
 				doAction(s, l)
@@ -467,7 +479,7 @@ func runC15(tier string) int {
 		Coverage: map[string]any{
 			"evaluations":                   len(cases),
 			"distinct_nontrivial":           nontrivial,
-			"rule":                          "complete structured enumeration: 6 session stages (before handshake, handshake complete, ready, ready with tx manager, ready with a block requested, the latter with the stream delivered in pieces of at most 7 bytes) x {19 base messages x frame mutations (11 declared lengths, corrupt checksum / magic / command, truncation at every header field boundary and inside the payload, 9 hostile values for the leading count), extended headers for tx/block/headers/unknown with 8 declared lengths up to 2^64-1 and no data, headers with 14 bits encodings x 4 timestamps, headers with 14 hostile per-header transaction counts and with a well-framed payload ending at every offset 0..81, transactions (classic, extended, inside the requested block) with 9 hostile values for each of input count / input script length / output count / output script length, blocks with hostile transaction counts, a block whose frame length is shorter than its content}; thorough adds ordered (mutated, valid) pairs. Every case is one run of a real node (sharing repositories with a healthy witness node) in a worker process under an 8 GB address-space limit; every case is a distinct hostile input (all non-trivial); a dying worker identifies the case, which is re-run alone to confirm",
+			"rule":                          "complete structured enumeration: 8 session stages (before handshake, handshake complete, ready, ready with tx manager, ready with a block requested, the latter with the stream delivered in pieces of at most 7 bytes, and before / after the handshake on a repository without chain split points - any network but mainnet - whose verification request has an empty locator) x {19 base messages x frame mutations (11 declared lengths, corrupt checksum / magic / command, truncation at every header field boundary and inside the payload, 9 hostile values for the leading count), extended headers for tx/block/headers/unknown with 8 declared lengths up to 2^64-1 and no data, headers with 14 bits encodings x 4 timestamps, headers with 14 hostile per-header transaction counts and with a well-framed payload ending at every offset 0..81, transactions (classic, extended, inside the requested block) with 9 hostile values for each of input count / input script length / output count / output script length, blocks with hostile transaction counts, a block whose frame length is shorter than its content}; thorough adds ordered (mutated, valid) pairs. Every case is one run of a real node (sharing repositories with a healthy witness node) in a worker process under an 8 GB address-space limit; every case is a distinct hostile input (all non-trivial); a dying worker identifies the case, which is re-run alone to confirm",
 			"exhaustive":                    true,
 			"outcomes":                      outcomes,
 			"samples":                       samples,
